@@ -108,6 +108,8 @@ func (c *Controller) Release(point, id string) {
 	delete(c.rules, key)
 	for _, p := range c.parked[key] {
 		p.release = true
+		p.cl.parked.Store(false) // running again from the releaser's point of view (quiescence must not treat it as idle)
+		c.b.act.Add(1)
 	}
 	delete(c.parked, key)
 	c.cond.Broadcast()
@@ -126,6 +128,8 @@ func (c *Controller) ReleaseOne(point, id string, k int) bool {
 		}
 		if i == k {
 			p.release = true
+			p.cl.parked.Store(false) // running again from the releaser's point of view (quiescence must not treat it as idle)
+			c.b.act.Add(1)
 			c.cond.Broadcast()
 			return true
 		}
@@ -142,6 +146,8 @@ func (c *Controller) ReleaseConn(point, id string, cl *Client) bool {
 	for _, p := range c.parked[key] {
 		if !p.release && p.cl == cl {
 			p.release = true
+			p.cl.parked.Store(false) // running again from the releaser's point of view (quiescence must not treat it as idle)
+			c.b.act.Add(1)
 			c.cond.Broadcast()
 			return true
 		}
@@ -155,6 +161,8 @@ func (c *Controller) ReleaseAll() {
 	for k, ps := range c.parked {
 		for _, p := range ps {
 			p.release = true
+			p.cl.parked.Store(false) // running again from the releaser's point of view (quiescence must not treat it as idle)
+			c.b.act.Add(1)
 		}
 		delete(c.parked, k)
 	}
@@ -166,4 +174,16 @@ func (c *Controller) Trace() []string {
 	c.mu.Lock()
 	defer c.mu.Unlock()
 	return append([]string{}, c.trace...)
+}
+
+// hookPoint lets hook callbacks act as schedule points (same dispatch as the source-level points).
+func hookPoint(point, id string) {
+	if ctlActive.Load() == 0 {
+		return
+	}
+	if v, ok := goMap.Load(goid()); ok {
+		if cl := v.(*Client); cl.B.ctl != nil {
+			cl.B.ctl.hit(cl, point, id)
+		}
+	}
 }
